@@ -1,4 +1,5 @@
 #![allow(dead_code)]
+mod c11;
 mod c13;
 mod coq;
 mod extract;
@@ -24,13 +25,14 @@ fn main() {
     let tier = arg(&args, "--tier").unwrap_or_else(|| "quick".into());
     let seed: u64 = arg(&args, "--seed").and_then(|s| s.parse().ok()).unwrap_or(1);
     let shards: usize = arg(&args, "--shards").and_then(|s| s.parse().ok()).unwrap_or(16);
-    let _replay = arg(&args, "--replay");
+    let replay = arg(&args, "--replay");
     match args[1].as_str() {
         "extract" => {
             let repo = PathBuf::from(arg(&args, "--repo").unwrap_or_else(|| "/repo".into()));
             extract::run(&repo, &out);
         }
         "c13" => c13::run(&out, &tier, seed, shards),
+        "c11" => c11::run(&out, &tier, seed, shards, replay),
         other => {
             eprintln!("unknown command {}", other);
             std::process::exit(2);
